@@ -302,6 +302,18 @@ func (c *config) resolveNorm(host string) []resolution {
 	return []resolution{{}}
 }
 
+// backendAt names the listening backend a substituted `to` value addresses: the value itself, or
+// the authority of the URI it forms (docs: "construct the upstream uri") when it carries more than that.
+func (c *config) backendAt(addr string) *sut.Backend {
+	if b := c.byAddr[addr]; b != nil {
+		return b
+	}
+	if pu, err := url.Parse("http://" + addr); err == nil {
+		return c.byAddr[pu.Host]
+	}
+	return nil
+}
+
 func same(a, b resolution) bool { return a.u == b.u && a.addr == b.addr }
 
 // norm is the name a Host value denotes if host names are read case-insensitively and a trailing
